@@ -13,7 +13,7 @@ macro_rules! for_all_est {
     ($f:ident, $($args:expr),*) => {
         $f::<average::Mean>($($args),*); $f::<average::Variance>($($args),*); $f::<average::Skewness>($($args),*);
         $f::<average::Kurtosis>($($args),*); $f::<average::Moments4>($($args),*); $f::<M5>($($args),*); $f::<M6>($($args),*);
-        $f::<M8>($($args),*); $f::<M10>($($args),*); $f::<average::Min>($($args),*); $f::<average::Max>($($args),*);
+        $f::<M8>($($args),*); $f::<M10>($($args),*); $f::<M7>($($args),*); $f::<M9>($($args),*); $f::<M12>($($args),*); $f::<average::Min>($($args),*); $f::<average::Max>($($args),*);
     };
 }
 macro_rules! for_all_pair {
@@ -206,6 +206,7 @@ pub fn c11(out: &mut Out, tier: &str, rng: &mut Rng) {
     for_all_est!(c11_huge, out, tier, rng);
     for_all_pair!(c11_phuge, out, tier, rng);
     c11_hist::<H1>(out, tier, rng); c11_hist::<H4>(out, tier, rng); c11_hist::<H10>(out, tier, rng); c11_hist::<H100>(out, tier, rng);
+    c11_hist::<H7>(out, tier, rng); c11_hist::<H8>(out, tier, rng); c11_hist::<H17>(out, tier, rng); c11_hist::<H25>(out, tier, rng); c11_hist::<H64>(out, tier, rng); c11_hist::<H255>(out, tier, rng);
 }
 
 // ------------------------------------------------------------------ C16
@@ -228,7 +229,8 @@ fn expect_f(out: &mut Out, ty: &str, accs: &[Acc], op: &str, want: &str, n: usiz
 
 /// the empty estimator, reached in different ways (all of them must behave as `new()` from then on)
 fn empty_variant<E: Est>(k: usize) -> E {
-    match k % 7 {
+    match k % 8 {
+        7 => { let e = E::default(); e.roundtrip().unwrap_or(e) }      // the empty estimator after a serde round trip (where it can be written)
         0 => E::new(),
         1 => E::default(),
         2 => { let mut a = E::new(); a.merge(&E::new()); a }
@@ -265,10 +267,10 @@ fn c16_est<E: Est>(out: &mut Out, tier: &str, rng: &mut Rng) {
             let d = &d[..n];
             let variant = out.case as usize;
             let mut e: E = empty_variant(variant);
-            out.x(acc_words(&e.accessors()) == acc_words(&E::new().accessors()), || format!("{}: the empty estimator built by route {} reports {:?}", ty, variant % 7, acc_words(&e.accessors())));
-            feed(out, &mut e, d, Trace::All, rng);
+            out.x(acc_words(&e.accessors()) == acc_words(&E::new().accessors()), || format!("{}: the empty estimator built by route {} reports {:?}", ty, variant % 8, acc_words(&e.accessors())));
+            feed(out, &mut e, d, if variant % 3 == 1 { Trace::None } else { Trace::All }, rng);
             let accs = observe(out, &e);
-            let ctx = format!("{:?} (empty estimator built by route {})", d, variant % 7);
+            let ctx = format!("{:?} (empty estimator built by route {})", d, variant % 8);
             // nothing may panic except standardized_moment(p>=3) with zero variance
             for a in &accs {
                 let allowed = a.op.starts_with("standardized_moment:") && !spread_nonzero(d) && a.op != "standardized_moment:0" && a.op != "standardized_moment:1" && a.op != "standardized_moment:2";
@@ -302,7 +304,7 @@ fn c16_est<E: Est>(out: &mut Out, tier: &str, rng: &mut Rng) {
             let mut e: E = empty_variant(variant);
             feed(out, &mut e, &d, if k <= 7 { Trace::All } else { Trace::Sparse }, rng);
             let accs = observe(out, &e);
-            let ctx = format!("constant stream of {} x {:?} (empty estimator built by route {})", k, x, variant % 7);
+            let ctx = format!("constant stream of {} x {:?} (empty estimator built by route {})", k, x, variant % 8);
             if let Some(a) = accs.iter().find(|a| a.op == "mean") { out.x(a.val == Val::F(x) || (x == 0.0 && a.val.f() == 0.0), || format!("{}.mean of {} is {:?}", ty, ctx, a.val)); }
             for op in ["population_variance", "variance_of_mean", "error", "error_mean", "skewness", "kurtosis", "central_moment:1", "central_moment:2", "central_moment:3", "central_moment:4", "central_moment:5", "central_moment:8"] { expect_f(out, ty, &accs, op, "zero", k, &ctx); }
             if let Some(a) = accs.iter().find(|a| a.op == "min" || a.op == "max") { out.x(a.val.f() == x, || format!("{}.{} of {} is {:?}", ty, a.op, ctx, a.val)); }
@@ -331,7 +333,7 @@ fn c16_pairs(out: &mut Out, tier: &str, rng: &mut Rng) {
             let variant = out.case as usize;
             let ctx = format!("{:?} (empty estimator built by route {})", d, variant % 6);
             let mut c: Covariance = empty_pair_variant(variant);
-            pfeed(out, &mut c, &d, Trace::All, rng);
+            pfeed(out, &mut c, &d, if variant % 3 == 1 { Trace::None } else { Trace::All }, rng);
             if n == 1 { out.x(c.mean_x() == d[0].0 && c.mean_y() == d[0].1, || format!("Covariance means of one observation {:?} are ({:?},{:?}) ({})", d[0], c.mean_x(), c.mean_y(), ctx)); }
             let accs = pobserve(out, &c);
             if n == 0 { for op in ["mean_x", "mean_y", "population_variance_x", "population_variance_y", "population_covariance"] { expect_f(out, "Covariance", &accs, op, "nan", n, &ctx); } }
@@ -371,13 +373,13 @@ fn c16_pairs(out: &mut Out, tier: &str, rng: &mut Rng) {
             let variant = out.case as usize;
             let ctx = format!("constant stream of {} x ({:?},{:?}) (empty estimator built by route {})", k, x, y, variant % 6);
             let mut c: Covariance = empty_pair_variant(variant);
-            pfeed(out, &mut c, &d, if k <= 7 { Trace::All } else { Trace::Sparse }, rng);
+            pfeed(out, &mut c, &d, if variant % 3 == 1 { Trace::None } else if k <= 7 { Trace::All } else { Trace::Sparse }, rng);
             let accs = pobserve(out, &c);
             out.x(c.mean_x() == x && c.mean_y() == y, || format!("Covariance means of {} are ({:?},{:?})", ctx, c.mean_x(), c.mean_y()));
             for op in ["population_variance_x", "population_variance_y", "population_covariance"] { expect_f(out, "Covariance", &accs, op, "zero", k, &ctx); }
             let dw: Vec<(f64, f64)> = (0..k).map(|i| (x, [1.0, 0.5, 3.0][i % 3])).collect();
             let mut w: WeightedMeanWithError = empty_pair_variant(variant + 1);
-            pfeed(out, &mut w, &dw, if k <= 7 { Trace::All } else { Trace::Sparse }, rng);
+            pfeed(out, &mut w, &dw, if variant % 3 == 2 { Trace::None } else if k <= 7 { Trace::All } else { Trace::Sparse }, rng);
             let aw = pobserve(out, &w);
             out.x(w.unweighted_mean() == x, || format!("unweighted mean of {} is {:?}", ctx, w.unweighted_mean()));
             expect_f(out, "WMWE", &aw, "population_variance", "zero", k, &ctx);
@@ -588,6 +590,7 @@ pub fn c17(out: &mut Out, tier: &str, rng: &mut Rng) {
     c17_pairs(out, tier, rng);
     c17_pairs_lopsided(out, tier, rng);
     c17_hist::<H1>(out, tier, rng); c17_hist::<H3>(out, tier, rng); c17_hist::<H10>(out, tier, rng); c17_hist::<H100>(out, tier, rng);
+    c17_hist::<H5>(out, tier, rng); c17_hist::<H7>(out, tier, rng); c17_hist::<H16>(out, tier, rng); c17_hist::<H17>(out, tier, rng); c17_hist::<H255>(out, tier, rng);
 }
 
 // ------------------------------------------------------------------ C20
@@ -604,7 +607,7 @@ fn c20_est<E: Est>(out: &mut Out, tier: &str, rng: &mut Rng) {
         let (d, _) = if E::ORDER >= 8 { dataset_in(rng, n.max(1), 1e9, -20.0, 20.0, FAMILIES) } else { dataset(rng, n.max(1), 1e9) };
         let d = &d[..n];
         let mut by_add = E::new();
-        feed(out, &mut by_add, d, if n <= 10 { Trace::All } else { Trace::None }, rng);
+        if n <= 10 { feed(out, &mut by_add, d, Trace::All, rng); } else { for x in d { by_add.add(*x); } }
         let want = words(&by_add);
         let v = E::from_iter_val(d);
         let r = E::from_iter_ref(d);
@@ -655,9 +658,11 @@ fn c20_pair<E: PairEst>(out: &mut Out, tier: &str, rng: &mut Rng) {
         if !out.next_case() { continue; }
         let mut n = rng.below(30);
         if rng.unit() < 0.2 { n = *rng.pick(&BLOCK_LENS[..27]); }
-        let d: Vec<(f64, f64)> = (0..n).map(|_| (rng.normal() * 1e3 + 5.0, if E::NAME == "Covariance" { rng.normal() } else if rng.unit() < 0.25 { 0.0 } else { rng.unit() * 3.0 })).collect();
+        let ties = rng.unit() < 0.3;      // runs of repeated sample values (and, now and then, repeated pairs)
+        let mut d: Vec<(f64, f64)> = (0..n).map(|_| (rng.normal() * 1e3 + 5.0, if E::NAME == "Covariance" { rng.normal() } else if rng.unit() < 0.25 { 0.0 } else { rng.unit() * 3.0 })).collect();
+        if ties { for i in 1..d.len() { match rng.below(4) { 0 => d[i].0 = d[i - 1].0, 1 => d[i] = d[i - 1], _ => {} } } }
         let mut by_add = E::new();
-        pfeed(out, &mut by_add, &d, if n <= 10 { Trace::All } else { Trace::None }, rng);
+        if n <= 10 { pfeed(out, &mut by_add, &d, Trace::All, rng); } else { for (a, b) in &d { by_add.add(*a, *b); } }
         let want = words(&by_add);
         out.x(words(&E::from_iter_val(&d)) == want && words(&E::from_iter_ref(&d)) == want, || format!("{}: collect differs from add loop", E::NAME));
         let (mut i, mut j) = (rng.below(n + 1), rng.below(n + 1));
@@ -762,6 +767,9 @@ pub fn replay_tree(out: &mut Out, rng: &mut Rng, ty: &str, tokens: &[String]) ->
         "M6" => crate::props_mom::merged::<M6>(out, &t, Trace::All, rng, &all),
         "M8" => crate::props_mom::merged::<M8>(out, &t, Trace::All, rng, &all),
         "M10" => crate::props_mom::merged::<M10>(out, &t, Trace::All, rng, &all),
+        "M12" => crate::props_mom::merged::<M12>(out, &t, Trace::All, rng, &all),
+        "M9" => crate::props_mom::merged::<M9>(out, &t, Trace::All, rng, &all),
+        "M7" => crate::props_mom::merged::<M7>(out, &t, Trace::All, rng, &all),
         "WeightedMean" => crate::props_pair::weighted_case::<WeightedMean>(out, &crate::props_pair::PTree::from_interleaved(&t), Trace::All, rng),
         "WMWE" => crate::props_pair::weighted_case::<WeightedMeanWithError>(out, &crate::props_pair::PTree::from_interleaved(&t), Trace::All, rng),
         "Covariance" => crate::props_pair::cov_case(out, &crate::props_pair::PTree::from_interleaved(&t), Trace::All, rng),
@@ -782,6 +790,9 @@ pub fn replay_data(out: &mut Out, rng: &mut Rng, ty: &str, data: &[f64]) -> bool
         "M6" => replay_est::<M6>(out, rng, data),
         "M8" => replay_est::<M8>(out, rng, data),
         "M10" => replay_est::<M10>(out, rng, data),
+        "M12" => replay_est::<M12>(out, rng, data),
+        "M9" => replay_est::<M9>(out, rng, data),
+        "M7" => replay_est::<M7>(out, rng, data),
         "WeightedMean" => replay_pair::<WeightedMean>(out, rng, data, "wt"),
         "WMWE" => replay_pair::<WeightedMeanWithError>(out, rng, data, "wt"),
         "Covariance" => replay_pair::<Covariance>(out, rng, data, "pair"),
